@@ -37,6 +37,22 @@ def _err(out):
     return {'ok': False, 'err': type(out.exc).__name__, 'msg': str(out.exc)[:300]}
 
 
+def _kwargs(kw):
+    """Markers for arguments that JSON cannot carry (csv dialects given as class or instance)."""
+    import csv
+    kw = dict(kw or {})
+    d = kw.get('dialect')
+    if d == '@excel_tab':
+        kw['dialect'] = csv.excel_tab
+    elif d == '@excel_tab()':
+        kw['dialect'] = csv.excel_tab()
+    elif d == '@excel':
+        kw['dialect'] = csv.excel
+    elif d == '@unix()':
+        kw['dialect'] = csv.unix_dialect()
+    return kw
+
+
 class Node:
 
     def __init__(self):
@@ -147,13 +163,13 @@ class Node:
 
     def do_tofile(self, cmd):
         x = self.slots[cmd['slot']]
-        kw = dict(cmd.get('kwargs', {}))
+        kw = _kwargs(cmd.get('kwargs', {}))
         kw.update(self._nondefault(cmd, {'frmat': 'cxt', 'encoding': 'utf-8'}))
         out = call(x.tofile, self._path(cmd), **kw)
         return {'ok': True} if out.ok else _err(out)
 
     def do_fromfile(self, cmd):
-        kw = dict(cmd.get('kwargs', {}))
+        kw = _kwargs(cmd.get('kwargs', {}))
         via = cmd.get('via', 'fromfile')
         path = self._path(cmd)
         enc = cmd.get('encoding')
@@ -171,7 +187,7 @@ class Node:
 
     def do_tostring(self, cmd):
         x = self.slots[cmd['slot']]
-        out = call(x.tostring, cmd['frmat'], **dict(cmd.get('kwargs', {})))
+        out = call(x.tostring, cmd['frmat'], **_kwargs(cmd.get('kwargs', {})))
         return {'ok': True, 'text': out.value} if out.ok else _err(out)
 
     def do_fromstring(self, cmd):
@@ -179,7 +195,7 @@ class Node:
         if via == 'make_context':
             out = call(self.C.make_context, cmd['text'], cmd['frmat'])
         else:
-            out = call(self.C.Context.fromstring, cmd['text'], cmd['frmat'], **dict(cmd.get('kwargs', {})))
+            out = call(self.C.Context.fromstring, cmd['text'], cmd['frmat'], **_kwargs(cmd.get('kwargs', {})))
         return self._store(cmd, out)
 
     def do_definition(self, cmd):
